@@ -5,13 +5,13 @@ open Lean Jinns.Proto
 
 namespace Jinns.Driver
 
-def ratCube (j : Json) : Except String (List (List (List Rat))) := do
+private def ratCube (j : Json) : Except String (List (List (List Rat))) := do
   let a ← j.getArr?
   a.toList.mapM ratMat
 
-def jRatCube (l : List (List (List Rat))) : Json := .arr (l.map jRatMat).toArray
+private def jRatCube (l : List (List (List Rat))) : Json := .arr (l.map jRatMat).toArray
 
-def optCube (j : Json) (k : String) : Except String (Option (List (List (List Rat)))) := do
+private def optCube (j : Json) (k : String) : Except String (Option (List (List (List Rat)))) := do
   let v ← j.getObjVal? k
   if v.isNull then pure none else do
     let c ← ratCube v
@@ -25,7 +25,7 @@ def handleC14Prod (j : Json) : Except String Json := do
     let b2 ← getRatMat j "b2"
     let out ← getRatMat j "out"
     let model := Jinns.Cartesian.cartesian b1 b2
-    let holds := Jinns.Holds.holdsProduct2 b1 b2 out
+    let holds := Jinns.Holds.holdsC14Product2 b1 b2 out
     pure <| Json.mkObj [("model", jRatMat model), ("agree", Json.bool (model == out)),
       ("holds", Json.bool holds.isNone), ("clause", jOptStr holds)]
   else do
@@ -33,7 +33,7 @@ def handleC14Prod (j : Json) : Except String Json := do
     let b2 ← ratCube (← j.getObjVal? "b2")
     let out ← ratCube (← j.getObjVal? "out")
     let model := Jinns.Cartesian.cartesian b1 b2
-    let holds := Jinns.Holds.holdsProduct3 b1 b2 out
+    let holds := Jinns.Holds.holdsC14Product3 b1 b2 out
     pure <| Json.mkObj [("model", jRatCube model), ("agree", Json.bool (model == out)),
       ("holds", Json.bool holds.isNone), ("clause", jOptStr holds)]
 
